@@ -438,6 +438,10 @@ func (self *visitorUserNode) OnObjectBegin(capacity int) error {
 				return err
 			}
 		} else {
+			if fieldDesc.Message() == nil {
+				// a JSON object where the schema has a scalar (or a list of scalars)
+				return newError(meta.ErrDismatchType, fmt.Sprintf("field '%s' is not a message, got a json object", fieldDesc.Name()), nil)
+			}
 			// case Message, encode Tag、PrefixLen, push MessageDesc、PrefixLen
 			if err = self.p.AppendTag(fieldDesc.Number(), proto.BytesType); err != nil {
 				return meta.NewError(meta.ErrWrite, "append prefix tag failed", nil)
@@ -547,6 +551,9 @@ func (self *visitorUserNode) OnObjectKey(key string) error {
 		fieldDesc := top.state.fieldDesc
 		// case MessageField
 		if top.typ == objStkType {
+			if fieldDesc.Message() == nil {
+				return newError(meta.ErrDismatchType, fmt.Sprintf("field '%s' is not a message, got a json object", fieldDesc.Name()), nil)
+			}
 			fd := fieldDesc.Message().ByJSONName(key)
 			if fd == nil {
 				if self.opts.DisallowUnknownField {
@@ -582,6 +589,9 @@ func (self *visitorUserNode) OnObjectKey(key string) error {
 				return err
 			}
 			// save MapValueDesc into globalFieldDesc
+			if fieldDesc.Message() == nil {
+				return newError(meta.ErrDismatchType, fmt.Sprintf("field '%s' is not a map, got a json object", fieldDesc.Name()), nil)
+			}
 			curDesc = *fieldDesc.Message().ByNumber(mapValueFieldNumber)
 		} else if top.typ == arrStkType {
 			// case List<Message>
